@@ -32,7 +32,9 @@ LEVEL_TEXT = ("Coq proofs about the executable model pag_to_mag_model (three pha
               "shared by all ancestral graphs with the same adjacencies and the same m-separations; mag_class_is_class), "
               "pag_to_mag_model (pag_of_mag m0) is acyclic, has no almost directed cycle, no unshielded collider unmarked in the "
               "PAG, is a valid MAG (maximality decided by separability) and Markov equivalent to m0 (all separation queries by "
-              "the shared oracle msep_dec), by vm_compute (n=4 table-driven per skeleton, soundness of the table proved). "
+              "the shared oracle msep_dec), by vm_compute (n=4 table-driven per skeleton, soundness of the table proved); "
+              "p2m_member_bounded_4_all lifts it to EVERY graph m with V m = 0..n-1 and valid_mag_spec m = true, whatever the "
+              "order / duplication of its edge lists (all_mags_covers_every_mag + graph extensionality of every oracle, C09/Ext.v). "
               "REFUTED for the assembly as coded before the repair — p2m_structure_code_refuted. "
               "BY CORRESPONDENCE — the implementation's own result on PAGofMAG(n) and on MARKS(n) passes the same oracle "
               "verdicts (witness validity, not identity), argument unchanged; the unbounded membership clause (Zhang 2008 Thm 2) "
@@ -40,8 +42,6 @@ LEVEL_TEXT = ("Coq proofs about the executable model pag_to_mag_model (three pha
 LEVEL_NOTE = ("bounded theorems are stated with the boolean oracles (msep_dec; its reflection to the Prop msep is Graph/MSepDec.v, "
               "not imported here); which undirected edge the temporary CPDAG yields first is not modelled (any order is covered by "
               "the structural theorem; membership of the implementation's actual result is checked by the oracle); "
-              "the bounded theorem ranges over the enumeration all_mags n (skeleton x one of ->,<-,<-> per edge, filtered by "
-              "valid_mag_spec) without a coverage lemma for other edge-list representations; "
               "-o edges occur only in the structural stream (no PAG of a MAG without undirected edges has one)")
 TECHNIQUE = "Coq proof (structure/termination unbounded; membership bounded n<=4 by vm_compute) + extracted-oracle correspondence"
 
